@@ -6,7 +6,7 @@
      receive log are observed. *)
 From Coq Require Import List Arith Bool Lia.
 Import ListNotations.
-From Onet Require Export Base.Corr Overlay.Delivery.
+From Onet Require Export Base.Corr Overlay.Delivery Node.SendApi.
 
 (* which repairs the code under /repo currently contains *)
 Definition code_fixed_F01 := true.
@@ -18,7 +18,10 @@ Record snap := mkSnap {
 
 Inductive case :=
 | CTrace (acts : list action) (snaps : list (option snap)) (settled : bool)
-| CE2E (sent recv : list (nat * nat)).   (* (message id, instance) pairs, sorted *)
+| CE2E (sent recv : list (nat * nat))    (* (message id, instance) pairs, sorted *)
+       (* group sends of the run: branching factor, tree size, caller's position, the call,
+          and the positions whose instance received that message (ascending) *)
+       (groups : list (nat * nat * nat * how * list nat)).
 
 Definition tcode (t : tstate) : nat := match t with TAbsent => 0 | TRequested => 1 | TPresent => 2 end.
 
@@ -71,7 +74,9 @@ Definition agree (c : case) : bool :=
       | Some s => negb settled || quiescent s
       | None => false
       end
-  | CE2E _ _ => true
+  | CE2E _ _ groups =>
+      (* who got the message of a group send is who the model of the call names *)
+      forallb (fun '(N, n, me, h, got) => nat_list_eqb (dests N n me h) got) groups
   end.
 
 Definition mismatches (l : list case) : list nat := mism_idx agree l.
@@ -112,7 +117,7 @@ Definition check (c : case) : list nat :=
              clause 4 (match sn_parked o with [] => true | _ => false end)
            else [])
       end
-  | CE2E sent recv =>
+  | CE2E sent recv _ =>
       (* both lists are sorted by the harness: exactly-once delivery = equal lists *)
       if pair_list_eqb sent recv then [] else
       clause 1 (forallb (fun p => existsb (pair_eqb p) recv) sent) ++
